@@ -41,14 +41,16 @@ def _explore(body, atoms, **kw):
         ps.Origin = orig
 
 
-def explore_flags(body, mark_blocks=None, mark_edges=None, stop_blocks=(), start=0, max_states=400000):
+def explore_flags(body, mark_blocks=None, mark_edges=None, stop_blocks=(), start=0, max_states=400000, mark_after=None):
     """Path exploration that follows the VALUES of the body's boolean locals instead of their names: a constant, a copy or a negation of a known value is
     propagated; a switch on a known value takes one edge; a switch on an unknown boolean local teaches its value on each edge (also to the local it was copied /
     negated from in the same block) until that local is assigned again or goes out of scope.  So `if a && !flag`, `let ok = !flag; if a && ok` and a renamed flag
     are one and the same thing here.  Locals whose address is taken are not followed.  Returns [(block, marks dict, path)] for every Return / stop block reached;
-    crossing mark_blocks[name] / mark_edges[name] sets marks[name]."""
+    crossing mark_blocks[name] / mark_edges[name] sets marks[name]; mark_after[name] = (earlier mark, blocks) sets marks[name] when one of `blocks` is entered on
+    a path that already carries the earlier mark (order of two events along one path)."""
     mark_blocks = mark_blocks or {}
     mark_edges = mark_edges or {}
+    mark_after = mark_after or {}
     stop_blocks = set(stop_blocks)
     isb = lambda l: body.locals[l] == 'bool'
     escaped = set()
@@ -72,7 +74,7 @@ def explore_flags(body, mark_blocks=None, mark_edges=None, stop_blocks=(), start
         if n > max_states:
             raise RuntimeError('flag exploration exceeded %d states in %s' % (max_states, body.id))
         f = dict(facts)
-        m = set(marks) | set(k_ for k_, bs in mark_blocks.items() if bb in bs)
+        m = set(marks) | set(k_ for k_, bs in mark_blocks.items() if bb in bs) | set(k_ for k_, (pre_, bs) in mark_after.items() if bb in bs and pre_ in marks)
         blk = body.blocks[bb]
         src = {}      # bool local defined in this block as copy / negation of another local: local -> (source local, negated)
         for st in blk['s']:
@@ -186,6 +188,125 @@ def _true_edges_of_returned_component(f, c, ix):
         if e[0] == 'call' and len(e) > 3 and e[3] is c:
             out += [(i, tg) for tg, p in flow.switch_edge_predicates(f, i, of) if p.startswith('bool[')]
     return out
+
+
+_IT = r'(?:^|::)Iterator>?::'
+_ELEMENTWISE_LAZY = _IT + r'(filter|map|filter_map|inspect)$'       # hand every element of the receiver to the closure — when something pulls
+_ELEMENTWISE_EAGER = _IT + r'(for_each)$'                            # …and pull everything themselves
+_KEEPS_PULLING = _IT + r'(filter|map|filter_map|inspect|enumerate|copied|cloned)$'   # downstream adaptors that still pull every upstream element
+_EXHAUSTS = _IT + r'(count|for_each|sum|product|fold|last|collect|max|min|max_by|max_by_key|min_by|min_by_key|partition|unzip)$'
+
+
+def _keys_fed_to_elementwise_closure(prog, f, of, callee, argi):
+    """The iterator form of `for x in xs { callee(.., x) }`: `callee` is called in a closure of `f` with the closure's element parameter as argument `argi`, and the
+    closure is handed to an adaptor that runs it once for every element of its receiver.  Accepted only when the closure really runs for every element: `for_each`,
+    or a lazy adaptor (filter / map / filter_map / inspect) whose result — possibly through further adaptors that keep pulling every element — is the receiver of a
+    consumer that exhausts it (count, sum, collect, fold, …; not any / all / find / take / next) on every path from the adaptor to a return.  Returns (rendered origin
+    of the receiver = where the elements come from, description); ('', reason) when the shape is not this one."""
+    sites = []
+    for cb in prog.family(f):
+        if cb is f or cb.kind != 'Closure':
+            continue
+        for c in cb.calls_to(callee):
+            sites.append((cb, c))
+    if not sites:
+        return '', 'no call of %s in the body or in a closure of it' % flow.short(callee)
+    srcs, hows = [], []
+    for cb, c in sites:
+        if cb.parent != f.id:
+            return '', 'the call stands in a nested closure (%s)' % cb.short
+        k = flow.Origin(cb).of_operand(c.args[argi]) if len(c.args) > argi else ('local', -1)
+        if not (cb.argc == 2 and k[0] == 'arg' and k[1] == 2):
+            return '', 'the closure does not pass its element parameter: %s' % flow.render(k)[:80]
+        takers = [x for x in f.calls for n, a in enumerate(x.args) if _is_closure_of(of.of_operand(a), cb)]
+        made = sum(1 for blk in f.blocks for st in blk['s'] if st.get('rv', {}).get('k') == 'agg' and st['rv'].get('def') == cb.id)
+        if len(takers) != 1 or made != 1:
+            return '', 'the closure is created %d times and handed to %d calls' % (made, len(takers))
+        x = takers[0]
+        if not (x.callee and len(x.args) == 2 and _is_closure_of(of.of_operand(x.args[1]), cb) and x.bb in f.live_blocks()):
+            return '', 'the closure is not the function argument of an iterator adaptor: %s' % flow.short(x.callee or '?')
+        if re.search(_ELEMENTWISE_EAGER, x.callee):
+            hows.append('run by %s over every element' % flow.short(x.callee))
+        elif re.search(_ELEMENTWISE_LAZY, x.callee):
+            drains = []
+            for y in f.calls:
+                if not (y.callee and y.args and re.search(_EXHAUSTS, y.callee)):
+                    continue
+                e = of.of_operand(y.args[0])
+                while e[0] == 'call' and len(e) > 3 and e[3] is not x and re.search(_KEEPS_PULLING, e[1]) and e[2]:
+                    e = e[2][0]
+                if e[0] == 'call' and len(e) > 3 and e[3] is x:
+                    drains.append(y)
+            if not drains:
+                return '', 'the lazy %s is never exhausted (no count / sum / collect / fold / for_each … over it)' % flow.short(x.callee)
+            db = [y.bb for y in drains]
+            nxt = [s_ for s_ in f.succ(x.bb)]
+            r = f.reach(nxt, avoid_blocks=db) | (set(nxt) - set(db))
+            if any(b_ in r for b_ in f.return_blocks()):
+                return '', 'a return is reachable from the lazy %s without exhausting it' % flow.short(x.callee)
+            hows.append('closure of %s, exhausted by %s' % (flow.short(x.callee), flow.short(drains[0].callee)))
+        else:
+            return '', 'the closure is handed to %s, which need not run it for every element' % flow.short(x.callee)
+        srcs.append(flow.render(of.of_operand(x.args[0])))
+    if len(set(srcs)) != 1:
+        return '', 'several removal closures over different sources'
+    return srcs[0], hows[0]
+
+
+def _is_closure_of(e, cb):
+    return e[0] == 'agg' and isinstance(e[1], str) and e[1].split(':', 1)[0] == 'closure' and e[1].split(':', 1)[1] == cb.id
+
+
+_RUNS_ITS_CLOSURE_AT_ONCE = r'(?:^|::)(bool::then|(option::)?Option::(map|and_then|or_else|unwrap_or_else|map_or|map_or_else)|(result::)?Result::(map|and_then|or_else|unwrap_or_else|map_or|map_or_else))$'
+
+
+def _generation_read_precedes_searches(prog, b, store, arg_e, searches):
+    """On every path (values of the body's bool flags followed) from the entry of `b` to the conditional store `store`, each read of the invalidation generation
+    that the store's expected_generation argument may come from happens, and happens before the first tier search of that path.  A path that never reaches the
+    store needs no generation (`if cacheable { Some(generation()) } else { None }` with the store behind `if cacheable` is the same as `cacheable.then(..)`).
+    Read points, in the body of the store: a call of invalidation_generation() that occurs in the origin of the argument; or the call — one that runs its closure
+    before it returns (bool::then, Option::map, …) — which receives a closure containing such a read.  Search points: tier-search calls of this body, and the
+    creation site of every closure of this body under which one stands (the earliest moment it can run).  Returns (ok, reason)."""
+    reads, at_once = set(), {}
+    for x in flow.walk(arg_e):
+        if x[0] == 'call' and len(x) > 3 and x[3] is not None:
+            if x[1] and re.search(r'QueryHashCache::invalidation_generation$', x[1]):
+                reads.add(x[3].bb)
+            for a in x[2]:
+                if a[0] == 'agg' and isinstance(a[1], str) and a[1].startswith('closure:'):
+                    at_once.setdefault(id(a), []).append(x)
+    for x in flow.walk(arg_e):
+        if x[0] == 'agg' and isinstance(x[1], str) and x[1].startswith('closure:'):
+            cid = x[1].split(':', 1)[1]
+            if not any(fb.calls_to('QueryHashCache::invalidation_generation') for fb in prog.bodies.values() if fb.id == cid or fb.id.startswith(cid + '::')):
+                continue
+            takers = at_once.get(id(x), [])
+            if not takers or not all(re.search(_RUNS_ITS_CLOSURE_AT_ONCE, flow.strip_generics(t[1])) for t in takers):
+                return False, 'the closure that reads the generation is not handed to a call known to run it at once'
+            reads.update(t[3].bb for t in takers)
+    if not reads:
+        return False, 'no read of the generation in the origin of the argument'
+    points, by_id = set(), prog.bodies
+    for (sb, s_) in searches:
+        if sb.id == b.id:
+            points.add(s_.bb)
+            continue
+        cur = sb
+        while cur is not None and cur.parent != b.id:
+            cur = by_id.get(cur.parent) if cur.parent else None
+        made = [i for i, blk in enumerate(b.blocks) for st in blk['s'] if st.get('rv', {}).get('k') == 'agg' and st['rv'].get('def') == cur.id] if cur is not None else []
+        if not made:
+            return False, 'a tier search stands outside the body of the store and its closures: %s' % sb.short
+        points.update(made)
+    terms = explore_flags(b, mark_blocks={'read': reads, 'search': points}, mark_after={'late': ('search', reads)}, stop_blocks={store.bb})
+    arr = [t for t in terms if t[0] == store.bb]
+    if not arr:
+        return False, 'the store is not reached'
+    if any(not t[1].get('read') for t in arr):
+        return False, 'the store is reached on a path that does not read the generation'
+    if any(t[1].get('late') for t in arr):
+        return False, 'the store is reached on a path that reads the generation after a tier search'
+    return True, ''
 
 
 def run(ctx, prog):
@@ -438,24 +559,11 @@ def run(ctx, prog):
         searches = []
         for fb in fam:
             searches += [(fb, s) for s in fb.calls if s.callee and re.search(r'(HnswBackend::knn_search\w*|HotTier::knn_search\w*|TieredEngine::search_cold\w*|TieredEngine::search_hot\w*)$', s.callee)]
-        dom_ok = bool(gens)
-        for (gb, g) in gens[:1]:
-            for (sb, s) in searches:
-                if sb.id == gb.id:
-                    if not gb.dominates(g.bb, s.bb):
-                        dom_ok = False
-                else:
-                    # search inside a closure created in gb: creation site must be dominated
-                    cur = sb
-                    by_id = {x.id: x for x in fam}
-                    while cur is not None and cur.parent != gb.id:
-                        cur = by_id.get(cur.parent)
-                    if cur is not None:
-                        sites = [i for i, blk in enumerate(gb.blocks) for st in blk['s'] if st.get('rv', {}).get('k') == 'agg' and st['rv'].get('def') == cur.id]
-                        if sites and not all(gb.dominates(g.bb, i) for i in sites):
-                            dom_ok = False
+        dom_ok, why_not = _generation_read_precedes_searches(prog, b, c, bo.of_operand(c.args[-1]), searches)
+        dom_ok = dom_ok and bool(gens)
         ctx.inst('C07.R3', root.short, 'store #%d uses a generation taken before the searches' % k, from_gen and dom_ok and bool(searches),
-                 'expected_generation = %s; invalidation_generation() calls: %d; tier searches: %d; taken first: %s' % (arg[:120], len(gens), len(searches), dom_ok))
+                 'expected_generation = %s; invalidation_generation() calls: %d; tier searches: %d; taken first: %s%s' % (
+                     arg[:120], len(gens), len(searches), dom_ok, (' (%s)' % why_not) if why_not else ''))
 
     # ------------------------------------------------------------------ R4
     ctx.rule('C07.R4', 'k and scope: an exact hit requires cached.requested_k ≥ k; a similarity candidate requires candidate.scope = scope '
@@ -572,8 +680,12 @@ def run(ctx, prog):
     io = flow.Origin(idoc)
     rm = idoc.calls_to('QueryHashCache::remove_entry')
     src = flow.render(io.of_operand(rm[0].args[1])) if rm else ''
+    how = ''
+    if not rm:
+        # no loop in the body: the removal may stand in a closure that an iterator adaptor runs once per element (`keys.into_iter().filter(|k| remove_entry(.., *k)).count()`)
+        src, how = _keys_fed_to_elementwise_closure(prog, idoc, io, 'QueryHashCache::remove_entry', 1)
     ctx.inst('C07.R5', idoc.short, 'removes the keys taken from doc_to_query_keys[doc_id]', 'QueryCacheState.doc_to_query_keys' in src and 'arg:doc_id' in src,
-             'removed keys originate from: %s' % src[:200])
+             'removed keys originate from: %s%s' % (src[:200], (' (%s)' % how) if how else ''))
     # ------------------------------------------------------------------ R6 the insert-time bound compares like with like
     from rules import C06 as _c06
     _c06.distance_scales(ctx, prog, 'C07.R6')
